@@ -82,6 +82,13 @@ def numericText? (s : String) : Option Rat :=
       else fin (if eneg then mant / ((pow10 (digitsVal ed) : Nat) : Rat) else mant * ((pow10 (digitsVal ed) : Nat) : Rat))
     else none
 
+/-- the number a stored value denotes for comparisons and aggregates: a number, or text that reads as one -/
+def Val.numberOrNumericText? : Val → Option Rat
+  | .int i => some (i : Rat)
+  | .dec q _ => some q
+  | .str s => numericText? s
+  | .bool _ => none
+
 /-! ### filters -/
 
 inductive Op where | eq | ne | lt | le | gt | ge
@@ -131,10 +138,17 @@ def glob (pat s : String) : Bool := globChars (lower pat).toList (lower s).toLis
 /-- classes of comparisons on which the engine is known/suspected to deviate; reported with a mismatch -/
 abbrev Classes := List String
 
+/-- the number a literal denotes: a numeric literal, or a QUOTED literal without wildcard that reads as a number (the
+statement: "numeric comparison by value independent of how the number or literal was written"; engine: repair c02-6, and
+the where stage has always read a quoted number that way) -/
+def Lit.num? : Lit → Option Rat
+  | .int i => some (i : Rat)
+  | .dec q _ => some q
+  | .str p => if p.contains '*' then none else numericText? p
+
 def evalCmp (v : Option Val) (op : Op) (l : Lit) : Tri × Classes :=
-  match l with
-  | .int _ | .dec _ _ =>
-    let lq : Rat := match l with | .int i => (i : Rat) | .dec q _ => q | _ => 0
+  match l.num? with
+  | some lq =>
     match v with
     | none => (if op == .ne then .either else .no, [])
     | some (.int i) => (Tri.ofBool (cmpRat op (i : Rat) lq), [])
@@ -144,7 +158,8 @@ def evalCmp (v : Option Val) (op : Op) (l : Lit) : Tri × Classes :=
       | some q => (Tri.ofBool (cmpRat op q lq), [])   -- numeric text is compared by value (engine: repair c02-4)
       | none => (if op == .ne then .either else .no, [])
     | some (.bool _) => (if op == .ne then .either else .no, [])
-  | .str p =>
+  | none =>
+    let p : String := match l with | .str p => p | _ => ""
     match v with
     | none => (if op == .ne then .either else .no, [])
     | some (.str s) =>
@@ -152,7 +167,17 @@ def evalCmp (v : Option Val) (op : Op) (l : Lit) : Tri × Classes :=
       | .eq => (Tri.ofBool (glob p s), [])
       | .ne => (Tri.ofBool (!glob p s), [])
       | _ => (.either, ["string-order-comparison"])
-    | some _ => (.either, ["non-string-value-string-literal"])
+    | some (.bool b) =>
+      -- a boolean next to text in its block is stored as the text "true" / "false" (C01 latitude): a pattern that
+      -- matches that text is left to the engine; any other string is not equal to the boolean
+      if glob p (if b then "true" else "false") then (.either, ["non-string-value-string-literal"])
+      else (match op with | .eq => (.no, []) | .ne => (.yes, []) | _ => (.either, ["string-order-comparison"]))
+    | some _ =>
+      -- a number against text that is not a number: with a wildcard the engine matches the pattern against ITS
+      -- rendering of the number (left to the engine); without, the string is not equal to any number, whatever the
+      -- number is stored as (engine: repair c02-5 — before it `!=` did not hold either)
+      if p.contains '*' then (.either, ["non-string-value-string-literal"])
+      else (match op with | .eq => (.no, []) | .ne => (.yes, []) | _ => (.either, ["string-order-comparison"]))
 
 /-- text of a value as free-text search sees it -/
 def Val.text : Val → String
@@ -170,6 +195,18 @@ negated operator on "absent" (only `!=` holds), Splunk would include the event: 
 def evalFilterAux (e : Event) (neg : Bool) : Filter → Tri × Classes
   | .all => (.yes, [])
   | .term w =>
+    match (if w.contains '*' then none else numericText? w) with
+    | some q =>
+      -- a free-text term that is a NUMBER: the engine reads it as "some field equals this number" (spl.peg
+      -- UnnamedFieldWithNumberValue: comparison `* = n`), by value, over every column but the timestamp — the harness
+      -- column _vid included.  A value that merely CONTAINS the digits as a word ("has 7 inside") matches the
+      -- text reading of a term and not the engine's: left to the engine.  Under a NOT the engine evaluates `* != n`
+      -- as "some column differs" (recorded deviation, class negated-numeric-term)
+      let byValue := (q == (e.vid : Rat)) || e.fields.any (fun (_, v) => match v with
+        | .int i => (i : Rat) == q | .dec d _ => d == q | .str s => numericText? s == some q | .bool _ => false)
+      let t := if byValue then Tri.yes else if termMatches w e then Tri.either else Tri.no
+      (t, if neg then ["negated-numeric-term"] else [])
+    | none =>
     -- a wildcard term that matches only an inner token of a value (`ba*` vs "foo bar"): the statement does
     -- not say whether wildcards are anchored at the token or at the value; left to the engine
     let whole := e.fields.any (fun (_, v) => glob w v.text)
@@ -178,7 +215,10 @@ def evalFilterAux (e : Event) (neg : Bool) : Filter → Tri × Classes
   | .cmp f op l =>
     match e.get f with
     | none => if neg then (.either, []) else evalCmp none op l
-    | some v => evalCmp (some v) op l
+    | some v =>
+      -- the same for a value that cannot be compared with a number (text, boolean): the engine answers "no" to `x>=10`
+      -- and, pushing the NOT into the operator, also to `NOT x>=10` (= `x<10`); the statement does not decide
+      if neg && l.num?.isSome && v.numberOrNumericText?.isNone then (.either, (evalCmp (some v) op l).2) else evalCmp (some v) op l
   | .and a b => let (x, c1) := evalFilterAux e neg a; let (y, c2) := evalFilterAux e neg b; (x.and y, c1 ++ c2)
   | .or a b => let (x, c1) := evalFilterAux e neg a; let (y, c2) := evalFilterAux e neg b; (x.or y, c1 ++ c2)
   | .not a => let (x, c) := evalFilterAux e (!neg) a; (x.not, c)
@@ -218,6 +258,7 @@ inductive Agg where
   | count
   | sum (f : String) | min (f : String) | max (f : String) | avg (f : String)
   | dc (f : String)
+  | cnt (f : String)     -- count(f): the matched events that HAVE the field
 deriving Repr, BEq
 
 /-- numeric reading of a value for aggregation: numbers, and numeric strings -/
@@ -249,6 +290,7 @@ def evalAgg (evs : List Event) : Agg → AggVal
   | .max f => match evs.filterMap (fun e => (e.get f).bind Val.aggNum?) with | [] => .none | x :: xs => .num (xs.foldl ratMax x)
   | .avg f => let xs := evs.filterMap (fun e => (e.get f).bind Val.aggNum?); if xs.isEmpty then .none else .num (xs.foldl (· + ·) 0 / (xs.length : Nat))
   | .dc f => .num ((evs.filterMap (fun e => (e.get f).map Val.keyText)).eraseDups.length : Nat)
+  | .cnt f => .num ((evs.filter (fun e => (e.get f).isSome)).length : Nat)
 
 /-- group-by: events lacking any by-field are not grouped (Splunk semantics); each occurring key once -/
 def groupBy (evs : List Event) (bys : List String) : List (List String × List Event) :=
